@@ -211,6 +211,13 @@ class XFloat(XBuiltin):
             if isinstance(value, str) and value:
                 return float(value)
         else:
+            # XSD spells the non-finite values INF, -INF & NaN while Python's
+            # float string representation uses inf, -inf & nan.
+            if isinstance(value, float):
+                if value != value:
+                    return "NaN"
+                if value in (float("inf"), float("-inf")):
+                    return value > 0 and "INF" or "-INF"
             return value
 
 
